@@ -321,7 +321,9 @@ def run(tier, seed):
             counts[viol["key"]] = 1
             continue
         depth = {"A": 4, "B": 3, "C": 6}[dname] if not thorough else {"A": 40, "B": 40, "C": 40}[dname]
-        r = bfs.explore(expand, init, depth, extra=dname, chunk=4 if thorough else 2)
+        # thorough: towards closure, but no longer than 25 minutes per driver (driver A has ~4 x 10^5 states x 62 events; whether the
+        # search closed, and the depth it completed, are in the evidence - a capped search is reported as capped)
+        r = bfs.explore(expand, init, depth, extra=dname, chunk=4 if thorough else 2, time_budget=1500 if thorough else None)
         states += r.states
         transitions += r.transitions
         per[dname] = {"states": r.states, "transitions": r.transitions, "max_depth": r.max_depth, "closed": r.closed,
